@@ -1,4 +1,127 @@
 import OdxVerif.Common.Sexp
-/-! driver stub for the compare family (to be written) -/
-open OdxVerif
-def main : IO Unit := driverMain fun _ => "(not-implemented)"
+import OdxVerif.Model.Compare
+/-! line-protocol driver for the compare/metrics model (property C18).
+    Strings travel hex-encoded (UTF-8), "-" = empty string. Requests:
+    `(compare <layer> <layer>)`, `(comparedb (sel h…) (new (l h <layer>)…) (old …))`, `(metrics (l h h (h…) (h…) none|(some h…))…)`;
+    `<layer>` = `((s name key prefix req (pos …) (neg …)) …)` as produced by `harness/compare_lib.py`. -/
+open OdxVerif OdxVerif.Compare
+
+def strOfHex? (a : String) : Option String := do
+  let bs ← bytesOfHex? a
+  String.fromUTF8? (ByteArray.mk (bs.map UInt8.ofNat).toArray)
+
+def hexOfStr (s : String) : String := hexAtom (s.toUTF8.toList.map (·.toNat))
+
+def pStr (x : Sexp) : Option String := x.asAtom?.bind strOfHex?
+
+def pOpt {α} (f : Sexp → Option α) : Sexp → Option (Option α)
+  | .atom "none" => some none
+  | .list [.atom "some", v] => (f v).map some
+  | _ => none
+
+def pPyVal : Sexp → Option PyVal
+  | .list [.atom "i", v] => v.asInt?.map .int
+  | .list [.atom "o", v] => (pStr v).map .other
+  | _ => none
+
+def pUnit : Sexp → Option UnitInfo
+  | .list [k, a, b] => do pure ⟨← k.asNat?, ← pStr a, ← pStr b⟩
+  | _ => none
+
+def pSub : Sexp → Option DopSub
+  | .list [.atom "pc", v] => (pPyVal v).map .physConst
+  | .list [.atom "val", v] => (pOpt pPyVal v).map .value
+  | .list [.atom "other"] => some .other
+  | _ => none
+
+def pKind : Sexp → Option ParamKind
+  | .list [.atom "const", t, v] => do pure (.codedConst (← pStr t) (← pPyVal v))
+  | .list [.atom "nrc", t, v] => do pure (.nrcConst (← pStr t) (← pStr v))
+  | .list [.atom "dop", k, n, u, pt, sub] => do
+    pure (.withDop ⟨← k.asNat?, ← pStr n, ← pOpt pUnit u, ← pOpt pStr pt⟩ (← pSub sub))
+  | .list [.atom "plain"] => some .plain
+  | _ => none
+
+def pParam : Sexp → Option Param
+  | .list [.atom "p", n, bp, bl, sem, pt, k] => do
+    pure ⟨← pStr n, ← pOpt Sexp.asNat? bp, ← pOpt Sexp.asNat? bl, ← pOpt pStr sem, ← pStr pt, ← pKind k⟩
+  | _ => none
+
+def pParams (xs : List Sexp) : Option (List Param) := xs.mapM pParam
+
+def pResp : Sexp → Option (List Param)
+  | .list xs => pParams xs
+  | _ => none
+
+def pReq : Sexp → Option (Option (List Param))
+  | .atom "none" => some none
+  | .list (.atom "some" :: ps) => (pParams ps).map some
+  | _ => none
+
+def pPrefix : Sexp → Option (Option (List Nat))
+  | .atom "none" => some none
+  | .list [.atom "some", .atom h] => (bytesOfHex? h).map some
+  | _ => none
+
+def pService : Sexp → Option Service
+  | .list [.atom "s", n, k, pf, rq, .list (.atom "pos" :: pos), .list (.atom "neg" :: neg)] => do
+    pure ⟨← pStr n, ← pPrefix pf, ← k.asNat?, ← pReq rq, ← pos.mapM pResp, ← neg.mapM pResp⟩
+  | _ => none
+
+def pLayer : Sexp → Option (List Service)
+  | .list xs => xs.mapM pService
+  | _ => none
+
+def kindTok : EntryKind → String
+  | .req => "req" | .pos => "pos" | .neg => "neg" | .reqList => "reqlist"
+  | .posParamList => "resplist-params" | .negParamList => "resplist-params"
+  | .posList => "resplist" | .negList => "resplist"
+
+def rowStr (r : Row) : String := s!"({hexOfStr r.attr.label} {hexOfStr r.old} {hexOfStr r.new})"
+
+def entryStr (e : Entry) : String :=
+  s!"({kindTok e.kind} {hexOfStr e.name} {" ".intercalate (e.rows.map rowStr)})"
+
+def resultStr (r : Result) : String :=
+  let nw := " ".intercalate (r.new.map (hexOfStr ·.name))
+  let dl := " ".intercalate (r.deleted.map (hexOfStr ·.name))
+  let rn := " ".intercalate (r.renamed.map fun (s, o) => s!"({hexOfStr s.name} {hexOfStr o})")
+  let ch := " ".intercalate (r.changed.map fun (s, es) =>
+    s!"({hexOfStr s.name} {hexOfStr (changedParams es)} {" ".intercalate (es.map entryStr)})")
+  s!"(new {nw}) (deleted {dl}) (renamed {rn}) (changed {ch})"
+
+def pLayerD : Sexp → Option LayerD
+  | .list [.atom "l", n, l] => do pure ⟨← pStr n, ← pLayer l⟩
+  | _ => none
+
+def pLayerM : Sexp → Option LayerM
+  | .list [.atom "l", n, t, .list ss, .list ds, cps] => do
+    let c ← match cps with
+      | .atom "none" => some none
+      | .list (.atom "some" :: cs) => (cs.mapM pStr).map some
+      | _ => none
+    pure ⟨← pStr n, ← pStr t, ← ss.mapM pStr, ← ds.mapM pStr, c⟩
+  | _ => none
+
+def handle (sx : Sexp) : String :=
+  match sx with
+  | .list [.atom "compare", a, b] =>
+    match pLayer a, pLayer b with
+    | some l1, some l2 => s!"(ok {resultStr (compareLayers l1 l2)})"
+    | _, _ => "(bad-args)"
+  | .list [.atom "comparedb", .list (.atom "sel" :: sel), .list (.atom "new" :: n), .list (.atom "old" :: o)] =>
+    match sel.mapM pStr, n.mapM pLayerD, o.mapM pLayerD with
+    | some sel, some n, some o =>
+      let r := compareDatabases n o sel
+      let ls := " ".intercalate (r.layers.map fun (k, v) => s!"({hexOfStr k} {resultStr v})")
+      s!"(ok (newlayers {" ".intercalate (r.newLayers.map hexOfStr)}) (deletedlayers {" ".intercalate (r.deletedLayers.map hexOfStr)}) (layers {ls}))"
+    | _, _, _ => "(bad-args)"
+  | .list (.atom "metrics" :: ls) =>
+    match ls.mapM pLayerM with
+    | some ls =>
+      let rows := (metrics ls).map fun r => s!"({hexOfStr r.name} {hexOfStr r.vtype} {r.nServices} {r.nDops} {r.nComparams})"
+      s!"(ok {" ".intercalate rows})"
+    | none => "(bad-args)"
+  | _ => "(bad-op)"
+
+def main : IO Unit := driverMain handle
